@@ -423,11 +423,13 @@ func refreshSession(c *hx.Ctx, k int, r *rand.Rand, dur time.Duration, opts ...i
 	}()))
 	c.Add("app_data_between_datagrams_of_one_round", int64(between))
 	c.Max("max_rounds_seen", int64(maxR))
-	if maxR-minR > 1 {
+	// (not in storm sessions: announcing 150-250 templates may itself span a refresh tick on a loaded machine, so the
+	// templates of the start do not all join at the same round; the gap rule above covers them)
+	if !storm && maxR-minR > 1 {
 		return fail("round-incomplete", fmt.Sprintf("refresh copies per template range from %d to %d: some round did not carry every template sent so far", minR, maxR), fmt.Sprint(refresh))
 	}
 	for _, t := range tmpls[len(tmpls)-late:] {
-		if n := refresh[t.tid]; n > maxR {
+		if n := refresh[t.tid]; !storm && n > maxR {
 			return fail("round-incomplete", fmt.Sprintf("a template announced mid-run was retransmitted %d times, the ones announced at the start at most %d", n, maxR), nil)
 		}
 	}
